@@ -45,4 +45,18 @@ PROPS = {
         ],
         "trusted_base": ["Model/Steps.v transcription of QmcIsingGraph::timestep / single_diagonal_step / single_cluster_step and Qmc::timestep"],
     },
+    "C17": {
+        "harness_cmd": "c17",
+        "property_files": ["C17.v"],
+        "expected_theorems": [
+            "C17_measure_spec", "C17_sample_times_exact", "C17_sample_count", "C17_sample_order",
+            "C17_driver_trace", "C17_driver_steps", "C17_driver_energy_is_average",
+        ],
+        "assumptions": [
+            "the helpers are exercised through a scripted QmcStepper (state encodes configuration id and step count) so that every fold call, swap phase and sample is observable; "
+            "the real samplers' get_n / state_ref are covered by the Steps correspondence (C06/C12)",
+            "domain: at least one sample (T >= f), as in the property",
+        ],
+        "trusted_base": ["Model/Stepper.v transcription of timesteps_measure_with_self and of the chunked while-loop of (parallel_)timesteps_sample"],
+    },
 }
